@@ -384,3 +384,47 @@ def symbolic_quoting(modname, qual, make_receiver, A, quote='`'):
         k2 = kind if kind in out else 'other'
         out[k2] = out[k2].union(lang)
     return out
+
+
+# ------------------------------------------------------------------ ignored input (comments, newlines)
+def ignore_rule_problems(Lexer):
+    """what the lexer throws away must be what SQL calls a comment or white space: a `--` comment ends before the line break, a `/* */` comment is the
+    shortest text from `/*` to `*/`, every other ignore rule (and the `ignore` characters) is white space only. Returns [(rule, witness, text)];
+    decided on the regular languages of the real patterns (all strings)."""
+    A = ALPHABET
+    anyd = Dfa.star_any(A)
+    out = []
+    ws = [c for c in A if c in ' \t\r\n']
+    for c in Lexer.ignore:
+        if c not in ' \t\r\n\f\v':
+            out.append(('ignore', c, f'the lexer skips the character {c!r} wherever it stands'))
+    for name, pat in rules_of(Lexer):
+        if not name.startswith('ignore_'):
+            continue
+        try:
+            L = regex_dfa(pat, Lexer.reflags, A)
+        except FstError as e:
+            out.append((name, None, f'pattern outside the regex fragment: {e}'))
+            continue
+        starts_dash = L.intersect(Dfa.literal(A, '--').concat(anyd)).witness() is not None
+        starts_block = L.intersect(Dfa.literal(A, '/*').concat(anyd)).witness() is not None
+        if starts_dash or (L.intersect(Dfa.literal(A, '#').concat(anyd)).witness() is not None):
+            w = L.intersect(anyd.concat(Dfa.literal(A, '\n')).concat(anyd)).witness()
+            if w is not None:
+                out.append((name, w, f'the line-comment rule can swallow a line break and what follows it: it matches {w!r}'))
+        elif starts_block:
+            w = L.minus(Dfa.literal(A, '/*').concat(anyd).concat(Dfa.literal(A, '*/'))).witness()
+            if w is not None:
+                out.append((name, w, f'the block-comment rule matches {w!r}, which is not /* ... */'))
+            inner = Dfa.literal(A, '/*').concat(anyd).concat(Dfa.literal(A, '*/')).concat(Dfa.plus_any(A)).concat(Dfa.literal(A, '*/'))
+            # a match that contains an earlier `*/` is longer than the comment (non-greedy patterns never produce it; the language still contains it, so
+            # the preferred match is what counts): checked on the real regex for a crafted text
+            import re as _re
+            m = _re.compile(pat, Lexer.reflags).match('/* a */ b */')
+            if m and m.group(0) != '/* a */':
+                out.append((name, '/* a */ b */', f'the block-comment rule runs past the first */: it takes {m.group(0)!r}'))
+        else:
+            w = L.minus(Dfa(A, [{c: 0 for c in ws}], 0, {0})).witness()
+            if w is not None:
+                out.append((name, w, f'the ignore rule {name} matches {w!r}, which is neither a comment nor white space'))
+    return out
